@@ -309,7 +309,14 @@ def c15_r2_units(ctx, rule="C15.R2"):
             if "^arg3" in sh:
                 cmps.add(sh)
     want_col = [s for s in cmps if q.wild("Le(cast<usize>(^arg3),U)", s)]
-    want_end = [s for s in cmps if q.wild("L?(*Add(from<u64>(^arg3),from<u64>(^arg4))*", s.replace("Lt", "L?").replace("Le", "L?"))]
+    SUM = "Add(from<u64>(^arg3),from<u64>(^arg4))"
+    want_end = [s for s in cmps if "U" in s.replace(SUM, "") and q.wild("L?(*%s*" % SUM, s.replace("Lt", "L?").replace("Le", "L?"))]
+    gb = gets[0][0]
+    ctx.check(has_fact(b, gb, roles, ("Le", SUM, "cast<u64>(U)"), ("Le", "cast<usize>(%s)" % SUM, "U")), rule, fn, "result:only-when-long-enough",
+              "a slice is returned only when the UTF-16 counter reached col + span (a line shorter than that yields None)", ctx.site(b, gb))
+    nones = option_blocks(b, "None")
+    ctx.check(bool(nones) and all(has_fact(b, nb, roles, ("Lt", "cast<u64>(U)", SUM), ("Lt", "U", "cast<usize>(%s)" % SUM)) for nb in nones), rule, fn, "none:only-when-short",
+              "None is returned only when the line has fewer than col + span UTF-16 units (the test is in UTF-16 units, not bytes)")
     ctx.check(bool(want_col), rule, fn, "cmp:col", "the prefix walk stops when the UTF-16 counter reaches col", detail=str(sorted(cmps)))
     ctx.check(len(want_end) >= 2, rule, fn, "cmp:col+span", "the span walk and the final length test compare the UTF-16 counter with col + span computed without overflow", detail=str(sorted(cmps)))
 
